@@ -1,30 +1,32 @@
 #!/bin/bash
-# tools/mirror.sh  -- a second, independent universe for trying patches while long runs use /repo:
-#   /tmp/repo2  = worktree of /repo HEAD,  /tmp/verif2 = copy of the committed+working /verif with every /repo path rewritten.
-# Only for development (seed testing); registered checks always use /verif and /repo.
+# tools/mirror.sh [N]  -- another, independent universe for trying patches while long runs use /repo:
+#   /tmp/repoN  = worktree of /repo HEAD,  /tmp/verifN = copy of the committed+working /verif with every /repo path rewritten.
+# Only for development (seed testing, mutation runs); registered checks always use /verif and /repo.  Default N = 2.
 set -e
-rm -rf /tmp/verif2
-git -C /repo worktree remove --force /tmp/repo2 2>/dev/null || true
+N="${1:-2}"
+R=/tmp/repo$N; V=/tmp/verif$N
+rm -rf $V
+git -C /repo worktree remove --force $R 2>/dev/null || true
 git -C /repo worktree prune
-git -C /repo worktree add -q --detach /tmp/repo2 HEAD
-mkdir -p /tmp/verif2
-rsync -a --exclude out --exclude 'harness/target' --exclude 'harness_f/target_*' --exclude .git /verif/ /tmp/verif2/
-grep -rl '/repo' /tmp/verif2 --include='*.rs' --include='*.py' --include='*.toml' --include='*.sh' | xargs sed -i 's#/repo#/tmp/repo2#g'
-sed -i 's#/verif/out/cli_target#/tmp/verif2/out/cli_target#' /tmp/verif2/tools/setup.sh
-cp /repo/Cargo.lock /tmp/repo2/Cargo.lock
-cp /tmp/repo2/Cargo.lock /tmp/verif2/harness/Cargo.lock
-cp /tmp/repo2/Cargo.lock /tmp/verif2/harness_f/Cargo.lock
-(cd /tmp/verif2 && ./tools/setup.sh)
-cat > /tmp/verif2/try.sh <<'EOT'
+git -C /repo worktree add -q --detach $R HEAD
+mkdir -p $V
+rsync -a --exclude out --exclude 'harness/target' --exclude 'harness_f/target_*' --exclude .git /verif/ $V/
+grep -rl '/repo' $V --include='*.rs' --include='*.py' --include='*.toml' --include='*.sh' | grep -v 'tools/mirror' | xargs sed -i "s#/repo#$R#g"
+grep -rl '/verif' $V --include='*.py' --include='*.sh' --include='*.toml' | grep -v 'tools/mirror' | xargs -r sed -i "s#/verif/#$V/#g"
+cp /repo/Cargo.lock $R/Cargo.lock
+cp $R/Cargo.lock $V/harness/Cargo.lock
+cp $R/Cargo.lock $V/harness_f/Cargo.lock
+(cd $V && ./tools/setup.sh)
+cat > $V/try.sh <<EOT
 #!/bin/bash
-# /tmp/verif2/try.sh <patch.diff> <Cxx> [tier]
-P="$1"; ID="$2"; TIER="${3:-quick}"
-git -C /tmp/repo2 apply "$P" || { echo "patch does not apply"; exit 3; }
-trap 'git -C /tmp/repo2 checkout -- . 2>/dev/null' EXIT INT TERM
-cd /tmp/verif2 && ./check "$ID" --tier "$TIER" > /tmp/verif2/out/try_$ID.log 2>&1; RC=$?
-grep -E '^(VIOLATION|KNOWN-FINDING|TOOL-ERROR)' /tmp/verif2/out/try_$ID.log | head -4
-echo "exit=$RC"
-exit $RC
+# $V/try.sh <patch.diff> <Cxx> [tier]
+P="\$1"; ID="\$2"; TIER="\${3:-quick}"
+git -C $R apply "\$P" || { echo "patch does not apply"; exit 3; }
+trap 'git -C $R checkout -- . 2>/dev/null' EXIT INT TERM
+cd $V && ./check "\$ID" --tier "\$TIER" > $V/out/try_\$ID.log 2>&1; RC=\$?
+grep -E '^(VIOLATION|KNOWN-FINDING|TOOL-ERROR)' $V/out/try_\$ID.log | head -4
+echo "exit=\$RC"
+exit \$RC
 EOT
-chmod +x /tmp/verif2/try.sh
-echo mirror ready
+chmod +x $V/try.sh
+echo mirror $N ready
